@@ -47,7 +47,7 @@ def build(ck):
     for a, b in pairs1:
         if want(f"resize/D1/{a}to{b}"):
             _resize(ck, 1, a, b)
-    for a, b in [(4, 5), (5, 4), (4, 6), (6, 4)] + ([(5, 6), (6, 5)] if thorough else []):
+    for a, b in [(4, 5), (5, 4), (5, 6), (6, 5)] + ([(4, 6), (6, 4), (3, 5), (5, 3)] if thorough else []):  # odd and even common sizes
         if want(f"resize/D2/{a}to{b}"):
             _resize(ck, 2, a, b)
     if thorough and want("resize/D3"):
@@ -101,16 +101,36 @@ def _interp_analytic(ck, D, N):
 
 def _interp_replay(D, N):
     def replay(model):
+        # every single mode below Nyquist (all signs on the leading axes, top mode of odd N included), random
+        # phase, random query points inside and outside the domain: real interpolant vs the analytic value
         rng = np.random.default_rng(0)
         L = 1.7
-        g = ex.make_grid(D, L, N)
-        k = [1] * D
-        f = lambda X: np.cos(2 * np.pi * sum(kk * X[d] for d, kk in enumerate(k)) / L + 0.3) + 0.5
-        u = jnp.asarray(f(np.asarray(g)))[None]
-        x = rng.uniform(-L, 2 * L, size=(D,))
-        got = float(ex.FourierInterpolator(u, domain_extent=L)(jnp.asarray(x))[0])
-        exp = float(f(x))
-        return {"reproduced": abs(got - exp) > 1e-8, "detail": f"FourierInterpolator D={D} N={N} at x={x.tolist()}: {got} vs analytic {exp}"}
+        g = np.asarray(ex.make_grid(D, L, N))
+        worst = (0.0, None, None)
+        for m in orc.all_modes(D, N, below_nyquist=True):
+            ph = rng.uniform(0, 2 * np.pi)
+            f = lambda X, m=m, ph=ph: np.cos(2 * np.pi * sum(mm * X[d] for d, mm in enumerate(m)) / L + ph) + 0.5
+            u = jnp.asarray(f(g))[None]
+            fi = ex.FourierInterpolator(u, domain_extent=L)
+            for _ in range(2):
+                x = rng.uniform(-L, 2 * L, size=(D,))
+                e = abs(float(fi(jnp.asarray(x))[0]) - float(f(x)))
+                if e > worst[0]:
+                    worst = (e, m, x.tolist())
+        return {"reproduced": worst[0] > 1e-8, "detail": f"FourierInterpolator D={D} N={N}: largest deviation from the analytic value {worst[0]:.3g} for mode {worst[1]} at x={worst[2]}"}
+
+    return replay
+
+
+def _grid_replay(D, N):
+    def replay(model):
+        rng = np.random.default_rng(1)
+        L = 2.3
+        u = jnp.asarray(rng.normal(size=(1,) + (N,) * D))
+        g = np.asarray(ex.make_grid(D, L, N))
+        fi = ex.FourierInterpolator(u, domain_extent=L)
+        e = max(abs(float(fi(jnp.asarray(g[(slice(None),) + j]))[0]) - float(u[(0,) + j])) for j in np.ndindex((N,) * D))
+        return {"reproduced": e > 1e-8, "detail": f"FourierInterpolator D={D} N={N} on a random state: largest grid-point deviation {e:.3g}"}
 
     return replay
 
@@ -139,7 +159,8 @@ def _interp_grid(ck, D, N):
             ph = orc.phase(q, N, +1)
             Em = sym.asc(E[idx])
             facts += [Em.re == sym.zr(ph.re), Em.im == sym.zr(ph.im)]
-        ck.add(f"{tag}/j={'_'.join(map(str, j))}/value", sym.equal_goal(enc.outs[0][0], u[(0,) + j]), [L > 0] + facts, family="interpolator reproduces every state at its grid points", timeout=120)
+        ck.add(f"{tag}/j={'_'.join(map(str, j))}/value", sym.equal_goal(enc.outs[0][0], u[(0,) + j]), [L > 0] + facts, family="interpolator reproduces every state at its grid points", timeout=120,
+               replay=_grid_replay(D, N))
 
 
 def _resize(ck, D, N_old, N_new):
